@@ -5,9 +5,12 @@ P=$1; shift
 cd /repo || exit 2
 if ! git diff --quiet; then echo "repo working tree is dirty"; exit 2; fi
 if ! git apply "$P"; then echo "PATCH DOES NOT APPLY"; exit 2; fi
+# evidence files must describe the unchanged tree: keep them aside while checks run on the mutant
+rm -rf /tmp/evidence_keep && cp -r /verif/evidence /tmp/evidence_keep
 for id in "$@"; do
   T=${TIER:-quick}
   ( cd /verif && timeout 1800 ./check "$id" "$T" > /tmp/mutant_$id.log 2>&1; echo "$id exit=$? $(grep -c '^VIOLATION' /tmp/mutant_$id.log) violation lines; $(grep -m1 'class=' /tmp/mutant_$id.log)" )
 done
 git -C /repo checkout -- . 
+rm -rf /verif/evidence && mv /tmp/evidence_keep /verif/evidence
 git -C /repo status --short | head -3
